@@ -1136,6 +1136,17 @@ def pathological():
         P.append(("classes-%d" % n, b"class A {" * n + b"}" * n))
         P.append(("casts-%d" % n, b"(T) " * n + b"x;"))
         P.append(("disj-%d" % n, b"{" * n + b"x;" + b"} or { y; }" * n))
+    # flat chains of operators: every operator applied by the loop of _expression nests the tree one level deeper
+    for n in (10, 996, 997, 998, 999, 1000, 1001, 1500, 5000, 300000):
+        P.append(("chain-eq-%d" % n, b"a" + b" == a" * n + b";"))
+        P.append(("chain-alt-%d" % n, b"a" + b" - a + a" * (n // 2) + b";"))
+        if n <= 5000:
+            P.append(("chain-impl-%d" % n, b"a" + b" -> a" * n + b";"))
+            P.append(("chain-mixed-%d" % n, b"a" + b" < a != a" * (n // 2) + b";"))
+            for k in (1, 500):      # inside k parentheses / after k unary operators: depth of the frame + length of the chain
+                if n > k:
+                    P.append(("chain-eq-%d-in-parens-%d" % (n - k, k), b"(" * k + b"a" + b" == a" * (n - k) + b")" * k + b";"))
+                    P.append(("chain-mul-%d-after-minus-%d" % (n - k, k), b"- " * k + b"a" + b" * a / a" * ((n - k) // 2) + b";"))
     for n in (10, 10000, 200000):
         P.append(("sum-%d" % n, b"x" + b"+x" * n + b";"))
         P.append(("comments-%d" % n, b"/**/ " * n + b"x;"))
@@ -1205,6 +1216,110 @@ def semantic_errors(rng, extra=0):
              ("method-arity", "real f(real a) { return a; } real v; v == f(1, 2);"), ("assign-unknown", "q.x = 1;"), ("unknown-enum-ref", "enum E {\"a\"} | F; E e;"),
              ("unknown-typedef-prim", "typedef real 1 T; U u;"), ("predicate-sup-unknown", "predicate P() : Q { }")]
     P += [("name:" + k, t) for k, t in names]
+    return P
+
+
+def structural_programs(rng, extra=0):
+    """-> list of (kind, program text, expected outcome class 'ERR' | 'UNSAT' | 'OK1'): modeling errors the front end accepts and
+    the core has to reject with a reported error (ERR) or a verdict (UNSAT), next to valid programs of the same shapes (OK1).
+      tp-arith      arithmetic over time-point variables that is not a difference constraint, in every comparison and position;
+                    time-points mixed with int / real variables
+      inheritance   cyclic and self inheritance (cycles of 1..4 classes, top level and nested), diamonds as valid controls
+      enum-union    cyclic and self enum unions (1..4 enums), references to types that are not enums
+      no-instance   object variables (existentials, fields, predicate arguments, also through subtypes and supertypes of
+                    predicates) of classes that have no instance
+      same-name     predicates of the same name in different classes whose atoms are compared
+      chain         very long flat operator chains (the tree is as deep as the chain is long)"""
+    P = []
+    cmps = ["<", "<=", "==", ">=", ">", "!="]
+    # ---- time points ----
+    bad_tp = ["a + b %s c", "c %s a + b", "a - b %s c", "a %s b + c", "a - b %s c - d", "2 * a %s b", "a %s 2 * b", "a / 2 %s b", "a + b %s 3", "3 %s a + b",
+              "2 * a - b %s 5", "-a - b %s 1", "a + b + c %s d", "a - b - c %s 0", "(a + b) / 2 %s c", "a * k %s b", "a + b - b %s c"]
+    ctxs = [("stmt", "%s;"), ("disjunct", "{ %s; } or { a <= b; }"), ("ctor", "class K { K() { %s; } } K k0 = new K();"),
+            ("rule", "predicate Q() { %s; } goal g = new Q();"), ("field", "bool w = %s;"), ("method", "void f() { %s; } f();")]
+    decl = "tp a; tp b; tp c; tp d; real k = 2; "
+    n = 0
+    for e in bad_tp:
+        for i, op in enumerate(cmps):
+            if not extra and (n + i) % 3:           # quick: every third combination, every comparison still with every shape over the run
+                continue
+            ck, cx = ctxs[(n + i) % len(ctxs)]
+            P.append(("tp-arith:%s:%s:%s" % (op, ck, e.replace(" ", "").replace("%s", "~")), decl + cx % (e % op), "ERR"))
+        n += 1
+    P += [("tp-arith:expr-only:sum", decl + "tp m = a + b;", "ERR"), ("tp-arith:expr-only:midpoint", decl + "tp m = (a + b) / 2;", "ERR"),
+          ("tp-arith:expr-only:arg", decl + "predicate P(tp s) {} goal g = new P(s: a + b);", "ERR"),
+          ("tp-arith:unify-differences", decl + "predicate P(tp s) {} goal g = new P(s: a - b); goal h = new P(s: c - d);", "ERR"),
+          ("tp-arith:eq-differences", decl + "tp e = a - b; tp f = c - d; e == f;", "ERR")]
+    for i, op in enumerate(cmps):
+        for j, t in enumerate(["a - x %s 3", "x %s a", "a + x %s b", "a %s n", "x + 1 %s a - b"]):
+            if not extra and (i + j) % 2:
+                continue
+            P.append(("tp-arith:mixed:%s:%d" % (op, j), "tp a; tp b; real x; int n; " + (t % op) + ";", "ERR"))
+    P.append(("tp-arith:mixed:many-vars", " ".join("tp t%d;" % i for i in range(40)) + " real x; t39 - x <= 3;", "ERR"))
+    P.append(("tp-arith:mixed:many-reals", " ".join("real r%d;" % i for i in range(40)) + " tp a; a - r39 <= 3;", "ERR"))
+    P.append(("tp-arith:mixed:arg", "predicate P(tp s) {} real x; goal g = new P(s: x); tp a; goal h = new P(s: a);", "ERR"))
+    for i, op in enumerate(cmps):       # valid difference constraints: accepted
+        P.append(("tp-arith:valid:%s" % op, decl + "a - b %s 5; a + 3 %s b + 7; a %s 100; 0 %s b - a + k;" % (op, op, op, op) if op not in ("==", "!=")
+                  else decl + "a - b %s 5; c %s d + k;" % (op, op), "OK1"))
+    P.append(("tp-arith:valid:const-mix", "tp a; real k = 2; int n = 3; a + k <= 5; a - n >= 0 - 7; a >= 1;", "OK1"))
+    # ---- inheritance ----
+    names = ["A", "B", "C", "D"]
+    for ln in (1, 2, 3, 4):
+        cyc = " ".join("class %s : %s {}" % (names[i], names[(i + 1) % ln]) for i in range(ln))
+        for k, (pre, post) in enumerate([("", ""), ("", " %s x = new %s();" % (names[0], names[0])), ("class O { ", " }"),
+                                         ("class Z {} ", " Z z = new Z();"), ("", " predicate P(%s y) {}" % names[ln - 1])]):
+            P.append(("inheritance:cycle-%d:%d" % (ln, k), pre + cyc + post, "ERR"))
+    P += [("inheritance:cycle-via-second-base", "class X {} class A : X, B {} class B : A {}", "ERR"),
+          ("inheritance:cycle-nested-scope", "class O { class A : B {} class B : O.A {} }", "ERR"),
+          ("inheritance:valid:diamond", "class A {} class B : A {} class C : A {} class D : B, C {} D d = new D(); A a;", "OK1"),
+          ("inheritance:valid:chain", "class A : B {} class B : C {} class C : D {} class D {} A a = new A(); D d;", "OK1"),
+          ("inheritance:valid:forward", "class A : B {} class B {} class C : A, B {} C c = new C();", "OK1")]
+    # ---- enums ----
+    en = ["E", "F", "G", "H"]
+    for ln in (1, 2, 3, 4):
+        cyc = " ".join('enum %s {"%s"} | %s;' % (en[i], en[i].lower(), en[(i + 1) % ln]) for i in range(ln))
+        for k, (pre, post) in enumerate([("", ""), ("", " %s e;" % en[0]), ("", " %s e;" % en[ln - 1]), ("class O { ", " }"),
+                                         ("", " predicate P(%s y) {} goal g = new P();" % en[0])]):
+            P.append(("enum-union:cycle-%d:%d" % (ln, k), pre + cyc + post, "ERR"))
+    P += [("enum-union:cycle-second-ref", 'enum E {"a"} | X | F; enum X {"x"}; enum F {"b"} | E; E e;', "ERR"),
+          ("enum-union:not-an-enum:class", 'class A {} enum E {"a"} | A; E e;', "ERR"),
+          ("enum-union:not-an-enum:typedef", 'typedef real 3 T; enum E {"a"} | T; E e;', "ERR"),
+          ("enum-union:not-an-enum:class-with-instances", 'class A {} A x = new A(); A y = new A(); enum E {"a"} | A; E e;', "ERR"),
+          ("enum-union:valid:diamond", 'enum E {"a"} | F | G; enum F {"b"} | G; enum G {"c"}; E e; F f; G g;', "OK1"),
+          ("enum-union:valid:chain", 'enum E {"a"} | F; enum F {"b"} | G; enum G {"c"} | H; enum H {"d"}; E e; H h;', "OK1")]
+    # ---- object variables of a class without instances ----
+    P += [("no-instance:predicate-arg", "class A {} predicate P(A a) {} goal g = new P();", "UNSAT"),
+          ("no-instance:predicate-arg-fact", "class A {} predicate P(A a) {} fact f = new P();", "UNSAT"),
+          ("no-instance:field", "class A {} class B { A a; } B b = new B();", "UNSAT"),
+          ("no-instance:field-explicit-ctor", "class A {} class B { A a; B() {} } B b = new B();", "UNSAT"),
+          ("no-instance:field-nested", "class A {} class B { A a; } class C { B b = new B(); } C c = new C();", "UNSAT"),
+          ("no-instance:subtype-has-none", "class A {} class B : A {} predicate P(A a) {} goal g = new P();", "UNSAT"),
+          ("no-instance:only-supertype-instance", "class A {} class B : A {} predicate P(B b) {} A a = new A(); goal g = new P();", "UNSAT"),
+          ("no-instance:inherited-predicate-arg", "class A {} predicate P(A a) {} predicate Q() : P {} goal g = new Q();", "UNSAT"),
+          ("no-instance:member-predicate", "class A {} class B { predicate P(A a) {} } B b = new B(); goal g = new b.P();", "UNSAT"),
+          ("no-instance:in-rule-local", "class A {} predicate Q() { A x; } goal g = new Q();", "UNSAT"),
+          ("no-instance:in-rule-subgoal", "class A {} predicate P(A a) {} predicate Q() { goal h = new P(); } goal g = new Q();", "UNSAT"),
+          ("no-instance:local", "class A {} A a;", "UNSAT"),
+          ("no-instance:two-args", "class A {} class B {} predicate P(B b, A a) {} B b0 = new B(); goal g = new P();", "UNSAT"),
+          ("no-instance:valid:other-disjunct", "class A {} predicate P(A a) {} predicate Q() { { goal h = new P(); } or { 1 <= 2; } } goal g = new Q();", "OK1"),
+          ("no-instance:valid:instance-of-subtype", "class A {} class B : A {} predicate P(A a) {} B b = new B(); goal g = new P();", "OK1"),
+          ("no-instance:valid:one-instance", "class A {} predicate P(A a) {} A a = new A(); goal g = new P();", "OK1"),
+          ("no-instance:valid:given-argument", "class A {} class B { A a; B(A x) : a(x) {} } A a0 = new A(); B b = new B(a0);", "OK1")]
+    # ---- predicates of the same name ----
+    two = "class A { predicate P(real x) {} } class B { predicate P(%s) {} } A a = new A(); B b = new B(); goal g1 = new a.P(); goal g2 = new b.P(); "
+    P += [("same-name:eq-different-fields", two % "real y" + "g1 == g2;", "UNSAT"), ("same-name:neq-different-fields", two % "real y" + "g1 != g2;", "OK1"),
+          ("same-name:eq-same-fields", two % "real x" + "g1 == g2;", "UNSAT"), ("same-name:eq-other-type-field", two % "bool x" + "g1 == g2;", "UNSAT"),
+          ("same-name:eq-more-fields", two % "real x, real z" + "g2 == g1;", "UNSAT"),
+          ("same-name:top-level-and-member", "predicate P(real x) {} class B { predicate P(bool y) {} } B b = new B(); goal g1 = new P(); goal g2 = new b.P(); g1 == g2;", "UNSAT"),
+          ("same-name:class-and-predicate", "class P { real z; } predicate P(real x) {} P p = new P(); goal g = new P(); g == p;", "UNSAT"),
+          ("same-name:valid:same-predicate", "class A { predicate P(real x) {} } A a = new A(); goal g1 = new a.P(); goal g2 = new a.P(); g1 == g2;", "OK1"),
+          ("same-name:valid:unify-per-class", two % "real y" + "goal g3 = new a.P(); goal g4 = new b.P();", "OK1")]
+    # ---- long flat chains: the nesting limit counts them ----
+    for nme, dcl, op, tail in [("eq", "bool b; ", " == b", ""), ("impl", "bool b; ", " -> b", ""), ("neq", "bool b; ", " != b", ""),
+                               ("alt", "real b; ", " - b + b", " >= 0"), ("muldiv", "real b = 1; ", " * b / b", " >= 0")]:
+        for ln in ((300, 5000, 300000) if nme in ("eq", "alt") or extra else (5000,)):
+            reps = ln if len(op.split()) == 2 else ln // 2
+            P.append(("chain:%s-%d" % (nme, ln), dcl + "b" + op * reps + tail + ";", "OK1" if ln < 900 else "ERR"))
     return P
 
 
